@@ -434,6 +434,22 @@ class CParser:
 
         return declarations
 
+    def _declare_parameter_names(self, decl: c_ast.Node) -> None:
+        """Enter the parameter names of a function definition into the scope of
+        its body. Called with the body's '{' as the current token, so the lexer
+        has already opened that scope. The parameters are those of the
+        declarator's innermost function derivation - the first node of the
+        chain - which need not be the list the '{' follows:
+        in 'int (*f(int a))(int b) {' it is (int a).
+        """
+        if isinstance(decl, c_ast.FuncDecl) and decl.args is not None:
+            for param in decl.args.params:
+                if isinstance(param, c_ast.EllipsisParam):
+                    break
+                name = getattr(param, "name", None)
+                if name:
+                    self._add_identifier(name, param.coord)
+
     def _build_function_definition(
         self,
         spec: "_DeclSpec",
@@ -700,6 +716,7 @@ class CParser:
             param_decls = None
             if self._peek_type() != "LBRACE":
                 self._parse_error("Invalid function definition", decl.coord)
+            self._declare_parameter_names(decl)
             spec: _DeclSpec = dict(
                 qual=[],
                 alignment=[],
@@ -734,6 +751,7 @@ class CParser:
                 param_decls = self._parse_declaration_list()
             if self._peek_type() != "LBRACE":
                 self._parse_error("Invalid function definition", decl.coord)
+            self._declare_parameter_names(decl)
             if not spec["type"]:
                 spec["type"] = [c_ast.IdentifierType(["int"], coord=spec_coord)]
             func = self._build_function_definition(
@@ -1430,18 +1448,7 @@ class CParser:
             )
             self._expect("RPAREN")
 
-        func = c_ast.FuncDecl(args=args, type=None, coord=base_decl.coord)
-
-        if self._peek_type() == "LBRACE":
-            if func.args is not None:
-                for param in func.args.params:
-                    if isinstance(param, c_ast.EllipsisParam):
-                        break
-                    name = getattr(param, "name", None)
-                    if name:
-                        self._add_identifier(name, param.coord)
-
-        return func
+        return c_ast.FuncDecl(args=args, type=None, coord=base_decl.coord)
 
     # BNF: pointer : '*' type_qualifier_list? pointer?
     def _parse_pointer(self) -> Optional[c_ast.Node]:
